@@ -83,12 +83,12 @@ class Scenario:
                 for cmd in self.script:
                     SCHED.point("cmd", cmd)
                     try:
-                        getattr(self.sim, cmd)()
-                        self.results.append((cmd, "ok"))
+                        getattr(self.sim, {"endrep": "end_replication"}.get(cmd, cmd))()
+                        self.results.append(({"endrep": "end_replication"}.get(cmd, cmd), "ok"))
                     except DSOLError:
-                        self.results.append((cmd, "DSOLError"))
+                        self.results.append(({"endrep": "end_replication"}.get(cmd, cmd), "DSOLError"))
                     except Exception as ex:
-                        self.results.append((cmd, type(ex).__name__))
+                        self.results.append(({"endrep": "end_replication"}.get(cmd, cmd), type(ex).__name__))
                     SCHED.point("ret", cmd, self.results[-1][1])
         finally:
             SCHED.finish("c")
